@@ -1,9 +1,64 @@
-import LLTD.Model.Block
-import LLTD.Spec.Block
+/-
+  C19 — Memory use is bounded and nothing is leaked.
+  The ledger of the model mirrors the verification port's (every lltd_port_malloc / free and the blocks the
+  port hands out); the statements are about that ledger, for every frame, state and fault schedule.
+-/
+import LLTD.Lemmas.Safe
 
 namespace LLTD.C19
-open LLTD LLTD.Spec
+open LLTD
 
-theorem placeholder_layout : X.sizeofDemux = 32 := by decide
+/-- balance: whatever a handler allocates while handling a frame is released before it returns, unless it became
+    part of the retained state (observation nodes, cached icon) — for every frame, state, allocator behaviour -/
+theorem balance (c : Cfg) (g : Glob) (w : World) (st : St) (img : List Nat) (b bb : Nat) (hc : CfgOk c)
+    (hl : 36 ≤ img.length) (h : Accounted w st b bb) :
+    Accounted (parseFrameSt c g w st img).w (parseFrameSt c g w st img).st b bb :=
+  parseFrameSt_ledger c g w st img b bb hc hl h
+
+/-- the retained state is bounded by a constant: at most 1024 observation nodes and one icon -/
+theorem retained_bound (st : St) (hi : St.Inv st) : retained st ≤ 1025 := by
+  unfold retained iconBlocks
+  have := hi.cap
+  split <;> omega
+
+/-- the bound does not grow with the history: it holds after every frame of every history -/
+def runSt (c : Cfg) (g : Glob) : World × St → List (List Nat) → World × St
+  | s, [] => s
+  | (w, st), img :: rest => runSt c g ((parseFrameSt c g w st img).w, (parseFrameSt c g w st img).st) rest
+
+theorem history_bound (c : Cfg) (g : Glob) (hc : CfgOk c) (imgs : List (List Nat)) (himgs : ∀ img ∈ imgs, ImgOk img)
+    (w : World) (st : St) (b bb : Nat) (hi : St.Inv st) (ha : Accounted w st b bb) :
+    St.Inv (runSt c g (w, st) imgs).2 ∧ Accounted (runSt c g (w, st) imgs).1 (runSt c g (w, st) imgs).2 b bb ∧
+    (runSt c g (w, st) imgs).1.live ≤ b + 1025 := by
+  induction imgs generalizing w st with
+  | nil =>
+    refine ⟨hi, ha, ?_⟩
+    have := retained_bound st hi
+    simp only [runSt]; rw [ha.1]; omega
+  | cons img rest ih =>
+    have him := himgs img (by simp)
+    simp only [runSt]
+    exact ih (fun i hi' => himgs i (by simp [hi'])) _ _ (parseFrameSt_inv c g w st img hi him)
+      (balance c g w st img b bb hc him.len ha)
+
+/-- after a topology Reset nothing remains allocated except what the ledger held besides this interface's retained
+    state (the constant per-interface record) -/
+theorem reset_frees_all (c : Cfg) (g : Glob) (w : World) (st : St) (img : List Nat) (b bb : Nat)
+    (htos : fTos img = 0) (hop : fOpcode img = 8) (h : Accounted w st b bb) :
+    (parseFrameSt c g w st img).w.live = b ∧ (parseFrameSt c g w st img).w.bytes = bb := by
+  have hr := reset_ledger w st b bb h
+  have e : parseFrameSt c g w st img = { st := resetSt st, w := resetWorld w st, fx := [] } := by
+    simp [parseFrameSt, htos, hop]
+  rw [e]
+  unfold Accounted retained retainedBytes iconBlocks iconBytes resetSt at hr
+  simpa using hr
+
+/-- the record created for a new interface context is the only block: the fresh state retains nothing -/
+theorem fresh_retains_nothing : retained {} = 0 ∧ retainedBytes {} = 0 := by decide
+
+/-- non-vacuity: a state with two observations and a cached icon, accounted against a ledger of 4 blocks -/
+example : Accounted { live := 4, bytes := 64 + 2 * 28 + 3 }
+    { sees := [⟨1, [1,1,1,1,1,1], [2,2,2,2,2,2], [3,3,3,3,3,3]⟩, ⟨0, [1,1,1,1,1,1], [4,4,4,4,4,4], [3,3,3,3,3,3]⟩], count := 2, icon := some [7, 8, 9] }
+    1 64 := ⟨by decide, by decide⟩
 
 end LLTD.C19
